@@ -99,9 +99,13 @@ def run(ctx):
         ctx.floor("C10-b", len(sp), 1, "pending_client_writes.split_off in drain_pending_client_writes")
         cname = mb.local_name(2)
         for (bi, t) in sp:
-            s = Slice(F, mb).operand(t["args"][1])
+            s = Slice(F, mb, through_calls=True).operand(t["args"][1])
             consts = [c for c in s.consts() if c.lstrip("-").isdigit()]
-            plus1 = s.has_param(cname) and consts == ["1"] and any(x[0] == "binop" and x[1] in ("Add", "AddWithOverflow") for x in s.sources) \
+            # `c + 1` as an operator or as checked_add / saturating_add / wrapping_add(1)
+            adds = any(x[0] == "binop" and x[1] in ("Add", "AddWithOverflow") for x in s.sources) or s.has_call(r"::(checked_add|saturating_add|wrapping_add|strict_add)$")
+            other = [x for x in s.sources if x[0] == "call" and not re.search(r"::(checked_add|saturating_add|wrapping_add|strict_add)$|Option<.*>::|option::Option::", strip_generics(x[1]))
+                     and not re.search(r"(clone|unwrap\w*|expect|into|from|borrow|deref)$", strip_generics(x[1]))]
+            plus1 = s.has_param(cname) and consts == ["1"] and adds and not other \
                 and not any(x[0] == "binop" and x[1] in ("Sub", "SubWithOverflow", "Mul", "MulWithOverflow") for x in s.sources)
             ctx.check("C10-b", "%s#split-at-c+1" % fkey(dpw), plus1, "map is split at new_commit + 1",
                       "pending_client_writes is not split at exactly new_commit + 1 (constants %s): batches whose end index is above the commit index are answered" % consts,
